@@ -72,8 +72,23 @@ StatSub(s, v) == IF v.on THEN [s EXCEPT !.onTok = @ - v.tok, !.onCnt = @ - 1]
                         ELSE [s EXCEPT !.offTok = @ - v.tok, !.offCnt = @ - 1]
 StakeEqual(a, b) == a.tok = b.tok /\ a.on = b.on
 
-Init == /\ st = InitState /\ j = <<>> /\ vj = <<>> /\ revs = <<>> /\ vrevs = <<>>
-        /\ nextId = 0 /\ snap = <<>> /\ failed = FALSE /\ hist = <<>>
+\* Alphabet "deleg3" starts from a populated state: every validator created with 2 units, account 1 delegating 2 units to
+\* each of them, transaction finalised.  The prelude that produces it is the beginning of hist, so the driver (and the
+\* conformance spec, from the plain initial state) simply replay it.
+SetToSeq(S) == LET RECURSIVE F(_) F(T) == IF T = {} THEN <<>> ELSE LET x == CHOOSE y \in T : \A z \in T : y <= z IN <<x>> \o F(T \ {x}) IN F(S)
+Prelude == [i \in 1..Cardinality(Vals) |-> [op |-> "CreateValidator", v |-> SetToSeq(Vals)[i], tok |-> 2]]
+           \o [i \in 1..Cardinality(Vals) |-> [op |-> "UpdateDelegation", a |-> 1, v |-> SetToSeq(Vals)[i], d |-> 2]]
+           \o <<[op |-> "Finalise"]>>
+SeededState == [k \in Keys |->
+                 CASE k[1] = "val"  -> [tok |-> 4, on |-> FALSE, ex |-> TRUE, dl |-> [a \in Accts |-> IF a = 1 THEN 2 ELSE 0]]
+                   [] k[1] = "stat" -> [onTok |-> 0, offTok |-> 4 * Cardinality(Vals), onCnt |-> 0, offCnt |-> Cardinality(Vals)]
+                   [] k = <<"dbal", 1>> -> 2 * Cardinality(Vals)
+                   [] k = <<"dto", 1>>  -> Vals
+                   [] OTHER -> InitState[k]]
+Init == /\ st = (IF Rich = "deleg3" THEN SeededState ELSE InitState)
+        /\ j = <<>> /\ vj = <<>> /\ revs = <<>> /\ vrevs = <<>>
+        /\ nextId = 0 /\ snap = <<>> /\ failed = FALSE
+        /\ hist = (IF Rich = "deleg3" THEN Prelude ELSE <<>>)
 
 Tick(rec) == /\ Len(hist) < MaxOps /\ ~failed
              /\ hist' = Append(hist, rec)
@@ -311,6 +326,11 @@ NextDeleg ==
    \/ \E a \in Accts, v \in Vals, d \in {-1, 1, 2} : UpdateDelegation(a, v, d)
    \/ SnapRev
 
+\* the delegator side with several validators (the account's sorted validator list is edited in the middle)
+NextDeleg3 ==
+   \/ \E v \in Vals, d \in {-2, -1, 1} : UpdateDelegation(1, v, d)
+   \/ SnapRev
+
 \* third small alphabet: the life cycle of account objects (creation on first write, touch, self-destruct, reset,
 \* deletion at the transaction boundary, same-value and zero writes)
 NextLife ==
@@ -341,7 +361,7 @@ NextRich ==
    \/ \E i \in {1, 2} : RemoveWithdraw(i)
    \/ SnapRev
 
-Next == CASE Rich = "rich" -> NextRich [] Rich = "deleg" -> NextDeleg [] Rich = "life" -> NextLife [] Rich = "store" -> NextStore [] OTHER -> NextReduced
+Next == CASE Rich = "rich" -> NextRich [] Rich = "deleg" -> NextDeleg [] Rich = "deleg3" -> NextDeleg3 [] Rich = "life" -> NextLife [] Rich = "store" -> NextStore [] OTHER -> NextReduced
 Spec == Init /\ [][Next]_vars
 
 \* ---------------------------------------------------------------- property layer
